@@ -35,29 +35,29 @@ def rule_key(ctx):
     fnm = vec_base.find_method("from_new_message")
     news = {k: p.cls(f"{MSG}.news.New{k}Vector") for k in ("Text", "Number", "Switch", "BLOB")}
     parts = {k: p.cls(f"{MSG}.one_parts.One{k}") for k in ("Text", "Number", "Switch", "BLOB")}
-    layout = [("Text", "V1", True), ("Number", "V2", True), ("Light", "V3", True), ("Switch", "V4", True)]
+    from .driverworld import build_drivers
+    kind_of = {"V1": "Text", "V2": "Number", "V22": "Light", "V3": "Switch", "V4": "BLOB"}
     cases = []
-    for target in ("V1", "V2", "V3", "V4", "NOPE"):
+    for target in ("V1", "V2", "V22", "V3", "V4", "NOPE", "W9"):
         for mk in ("Text", "Number", "Switch", "BLOB"):
             for children in (["A"], ["B", "A"], ["A", "ZZ", "B"], [], ["A", "A"]):
                 cases.append((target, mk, children))
-    kind_of = {"V1": "Text", "V2": "Number", "V3": "Light", "V4": "Switch"}
     bad = False
     n = 0
     for target, mk, children in cases:
         n += 1
 
         def run(it: Interp):
-            drv, vecs = make_driver(p, layout)
-            it.vecs = vecs
+            drivers = build_drivers(it, p)
+            it.drivers = drivers
             kids = [Obj(parts[mk], {"name": Const(c), "value": Obj(None, label=f"<text:{i}>"), "__closed__": Const(True)}, label=f"child{i}:{c}") for i, c in enumerate(children)]
             it.kids = kids
-            msg = Obj(news[mk], {"device": Const("DEV"), "name": Const(target), "children": Lst(kids), "timestamp": Const(None), "__closed__": Const(True)}, label="newVector")
-            return it.run_function(Fn(f, drv), [msg], {})
+            msg = Obj(news[mk], {"device": Const("DEVA"), "name": Const(target), "children": Lst(kids), "timestamp": Const(None), "__closed__": Const(True)}, label="newVector")
+            return it.run_function(Fn(f, drivers["DEVA"]), [msg], {})
 
         paths = explore(p, run, {"inline": lambda fi, node: fi is fnm, "call_may_raise": None})
         ctx.paths_enumerated += len(paths)
-        row = f"new{mk}Vector name={target} children={children}"
+        row = f"new{mk}Vector device=DEVA name={target} children={children}"
         for pa in paths:
             if pa.outcome != "return":
                 ctx.violated("C06.KEY", f.short, f"[{row}] raises {show(pa.value) if pa.value is not None else ''}", fi=f, text=f"raises:{'known' if target in kind_of else 'unknown'}:{'match' if kind_of.get(target) == mk else 'mismatch'}", witness=row)
@@ -71,12 +71,13 @@ def rule_key(ctx):
                 applied.append((recv, show(arg) if arg is not None else None))
             other = [e for e in pa.events if e.kind == "call" and not is_call(e.data["term"], method="set_value_from_message") and not is_call(e.data["term"], method="from_new_message") and not is_call(e.data["term"], method="get") and not (isinstance(e.data["callee"], Term) and e.data["callee"].op == "global") and "logger" not in show(e.data["term"]) and "exception" not in show(e.data["term"])]
             stores = [e for e in pa.events if e.kind == "store" and e.data.get("attr") is not None]
+            valid = {"V22": ("A",)}.get(target, ("A", "B"))
             if kind_of.get(target) == mk:
-                expect = [(f"el:{target}.{c}", f"child{i}:{c}") for i, c in enumerate(children) if c in ("A", "B")]
+                expect = [(f"el:DEVA.{target}.{c}", f"child{i}:{c}") for i, c in enumerate(children) if c in valid]
             else:
                 expect = []
             if applied != expect:
-                ctx.violated("C06.KEY", f.short, f"[{row}] applies {applied}, expected {expect} (exactly the named elements of the addressed property, only when the kinds match)", fi=f, text=f"applied:{'known' if target in kind_of else 'unknown'}:{'match' if kind_of.get(target) == mk else 'mismatch'}:{len(applied)}:{len(expect)}", witness=row)
+                ctx.violated("C06.KEY", f.short, f"[{row}] applies {applied}, expected {expect} (exactly the named elements of the addressed property of the addressed driver, only when the kinds match; a second driver DEVB with properties V1/W9 exists)", fi=f, text=f"applied:{'known' if target in kind_of else 'unknown'}:{'match' if kind_of.get(target) == mk else 'mismatch'}:{len(applied)}:{len(expect)}", witness=row)
                 bad = True
             if stores:
                 ctx.violated("C06.KEY", f.short, f"[{row}] stores {[repr(s) for s in stores][:2]} during dispatch", fi=f, text="dispatch-stores", witness=row)
@@ -87,7 +88,7 @@ def rule_key(ctx):
     ctx.counters["C06.KEY:cases"] = n
     if not bad:
         ctx.holds("C06.KEY", f.short, f"{n} dispatch cases: only the named elements of the addressed, kind-matching property are written, in order", fi=f)
-    ctx.exhaustive_domains.append("5 targets x 4 message kinds x 5 child lists")
+    ctx.exhaustive_domains.append("7 targets x 4 message kinds x 5 child lists on a constructed two-driver world")
     # tables keyed by wire names
     init = vec_base.methods["__init__"]
     paths = run_method(p, init)
